@@ -364,7 +364,7 @@ spec("C09",
      )
 
 spec("C10",
-     cmd="c10", count=dict(quick=300, thorough=6000),
+     cmd="c10", count=dict(quick=1500, thorough=12000),
      vo_targets=["props/C10.vo"],
      level="proof",
      rule="random histories (5-40 steps) over 3-6 functions of different shapes with ONE long-lived point/interval/float-slice/grad-slice evaluator, one workspace, recycled function storage and recycled tape storage (JIT: Mmap), steps in {point, interval, slice(n), grad(n), simplify, recycle+rebuild}; every step is compared bit-for-bit with a twin using fresh objects; backends interpreter N=4, N=255 and x86_64 JIT; evaluations = histories, distinct_nontrivial = histories (each has its own random functions); half of the functions carry an operation with the same (early, by then spilled) node on both sides, read once more at the end; budgets 3, 4, 255 and the JIT; every history opens with trace-then-simplify on each function in turn",
